@@ -10,7 +10,10 @@ LEVEL = 'proof'
 RULE = ('per (adapter, SCREEN mode) episodes on a real Session with an accumulating random screen (LINE BF blocks, '
         'PSETs, PUT of random byte arrays): one case = one executed statement group (PSET+POINT, LINE / LINE B / LINE BF '
         'drawn twice with two attributes so that the exact set of written cells is observable on any background, GET, PUT '
-        'with PSET/PRESET/AND/OR/XOR, XOR twice, GET-draw-PUT restore); endpoints, rectangles and sprite rectangles are '
+        'with PSET/PRESET/AND/OR/XOR, XOR twice, GET-draw-PUT restore); every episode also runs array-state histories on two '
+        'small arrays dimensioned to fit (GET; then refused GETs - record too large for the array, rectangle off the '
+        'screen -, element and header assignments, array copies, Session.set_variable, ERASE+DIM; then PUT with every '
+        'action verb, at the place of the GET or elsewhere); endpoints, rectangles and sprite rectangles are '
         'boundary-dense (screen edges, degenerate, byte-alignment widths 1..17) plus PRNG; non-trivial = every case '
         '(each changes or must provably not change pixels)')
 EXPLANATION = ('theorems (PcbV.Props.C31): pset_one_pixel, point_reads_it, line_count (Bresenham invariant by induction, with '
@@ -19,7 +22,10 @@ EXPLANATION = ('theorems (PcbV.Props.C31): pset_one_pixel, point_reads_it, line_
                'arrays (pack), PUT of arbitrary byte arrays (unpack) and the five PUT operations compared with the compiled '
                'model; oracle (from the statement, independent of the model): one pixel + POINT, count / endpoints / one cell '
                'per major step / 8-adjacency / less than one pixel from the ideal line, exact frame and rectangle sets, '
-               'GET;PUT PSET identity, copy semantics of the PUT operations cell by cell, XOR twice identity, whole page compared')
+               'GET;PUT PSET identity, copy semantics of the PUT operations cell by cell, XOR twice identity, whole page compared; '
+               'in the array-state histories PUT must paint exactly the picture that the bytes the array holds NOW encode '
+               '(independent decoder of the documented record formats), also after refused statements '
+               '(theorems get_refused_put_identity, put_after_store)')
 TRUSTED_BASE = ['models PcbV.Model.Sprite (sprite builders, bytematrix pack_bytes/unpack_bytes, get_/put_/point_) and '
                 'PcbV.Model.Draw/Viewport (C30) are hand transcriptions of graphics.py, framebuffer.py, bytematrix.py',
                 'the harness reads pixels with Session.get_pixels() (fast path: the rows of display.vpage, cross-checked '
@@ -161,6 +167,41 @@ def rect_runs(x0, y0, x1, y1):
     return [(y, xa, xb) for y in range(ya, yb + 1)]
 
 
+def record_size(kind, bpp, w, h):
+    """Bytes of the record GET stores for a picture of w x h pixels (w: pixels actually stored)."""
+    if kind == 'packed':
+        return 4 + (w * bpp + 7) // 8 * h
+    return 4 + (w + 7) // 8 * h * bpp
+
+
+def decode(kind, bpp, data):
+    """The picture (rows of attributes) a sprite record encodes, written from the documented formats only:
+    packed - header (width*bpp, height), rows byte aligned, pixels bpp bits each, leftmost in the high bits;
+    planed - header (width, height), per row one byte-aligned bit row per colour plane, plane 0 first;
+    tandy6 - planed, the header holds half the width.
+    None: the array is shorter than its own header demands; []: zero width or height."""
+    if len(data) < 4:
+        return None
+    a, h = struct.unpack('<HH', data[:4])
+    w = a // bpp if kind == 'packed' else (2 * a if kind == 'tandy6' else a)
+    if w == 0 or h == 0:
+        return []
+    if len(data) < record_size(kind, bpp, w, h):
+        return None
+    rows = []
+    if kind == 'packed':
+        rb, mask = (w * bpp + 7) // 8, (1 << bpp) - 1
+        for j in range(h):
+            row = data[4 + j * rb:4 + (j + 1) * rb]
+            rows.append(bytes((row[i * bpp // 8] >> (8 - bpp - i * bpp % 8)) & mask for i in range(w)))
+    else:
+        rb = (w + 7) // 8
+        for j in range(h):
+            planes = [data[4 + (j * bpp + p) * rb:4 + (j * bpp + p + 1) * rb] for p in range(bpp)]
+            rows.append(bytes(sum(((planes[p][i // 8] >> (7 - i % 8)) & 1) << p for p in range(bpp)) for i in range(w)))
+    return rows
+
+
 def slope_class(x0, y0, x1, y1):
     dx, dy = abs(x1 - x0), abs(y1 - y0)
     if dx == 0 and dy == 0:
@@ -179,8 +220,10 @@ def slope_class(x0, y0, x1, y1):
 class Episode(object):
     """One real Session in one graphics mode; an accumulating history of statements, each judged by the oracle."""
 
-    def __init__(self, ctx, adapter, mode, seed, steps, collect):
+    def __init__(self, ctx, adapter, mode, seed, steps, collect, hists=1):
         self.ctx, self.adapter, self.mode, self.seed, self.steps = ctx, adapter, mode, seed, steps
+        self.hists = hists
+        self.dimmed = {}                # small arrays of the array-state histories: name -> number of bytes
         self.rng = random.Random(seed)
         self.W, self.H, self.bpp, self.kind = MODES[adapter, mode]
         self.wf = 2 if self.kind == 'tandy6' else 1
@@ -209,8 +252,8 @@ class Episode(object):
     # --- plumbing
 
     def where(self, **kw):
-        d = {'adapter': self.adapter, 'mode': self.mode, 'seed': self.seed, 'steps': self.steps,
-             'step': len(self.history), 'recent': self.history[-6:]}
+        d = {'adapter': self.adapter, 'mode': self.mode, 'seed': self.seed, 'steps': self.steps, 'hists': self.hists,
+             'step': len(self.history), 'recent': self.history[-8:]}
         d.update(kw)
         return d
 
@@ -703,6 +746,186 @@ class Episode(object):
         self.sprites['J%'] = rows
         self.add_case('unpack %s %d %s' % (self.kind, self.bpp, data.hex()), 'ok %d %d %s' % (w, h, hexrows(rows)))
 
+    # --- array-state histories: PUT paints what the array holds NOW
+
+    def arr_bytes(self, name):
+        return b''.join(struct.pack('<h', v) for v in self.session.get_variable(name + '()'))
+
+    def ex_may_fail(self, text):
+        """Execute a statement that may be refused; returns (refused, problem).  An error message is printed on the
+        graphics screen, so the page is re-read afterwards."""
+        self.history.append(text)
+        try:
+            out = self.session.execute(text.encode('latin-1'))
+        except Exception as e:
+            self.cur = self.snap()
+            return True, 'host exception %s: %s' % (type(e).__name__, e)
+        if out.strip():
+            self.cur = self.snap()
+            return True, (None if b'Illegal function call' in out else 'output %r' % out.strip()[:60])
+        return False, None
+
+    def small_size(self):
+        rng = self.rng
+        w = rng.choice([1, 2, 3, 4, 5, 7, 8, 9, 12, 16, 17, rng.randint(1, 24)])
+        h = rng.choice([1, 2, 3, 4, rng.randint(1, 10)])
+        return w, h
+
+    def ah_dim(self, name, nbytes):
+        n = max(1, (nbytes + 1) // 2 - 1)
+        st = ('ERASE %s: ' % name if name in self.dimmed else '') + 'DIM %s(%d)' % (name, n)
+        err = self.ex(st)
+        if err:
+            self.problem(st, err)
+            return False
+        self.dimmed[name] = 2 * (n + 1)
+        self.ctx.count('array:' + ('erase+dim' if st.startswith('ERASE') else 'dim'))
+        return True
+
+    def ah_get_ok(self, name, w, h):
+        """A GET that fits the array; the record must encode the rectangle fetched."""
+        x0, y0 = self.place(self.W - w * self.wf), self.place(self.H - h)
+        st = 'GET (%d,%d)-(%d,%d),%s' % (x0, y0, x0 + w - 1, y0 + h - 1, name)
+        err = self.ex(st)
+        if err:
+            self.problem(st, err)
+            return None
+        if not self.check_unchanged('get-changed-screen', st, stmt=st):
+            return None
+        rows = region(self.cur, x0, y0, w * self.wf, h)
+        pic = decode(self.kind, self.bpp, self.arr_bytes(name))
+        self.ctx.count('array:get')
+        if pic != rows:
+            self.fail('get-record-wrong', '%s: the record in the array does not encode the rectangle fetched' % st, stmt=st)
+        return x0, y0
+
+    def ah_disturb(self, name, other, w, h):
+        """Something between GET and PUT that must not change what PUT paints beyond what it does to the array."""
+        rng = self.rng
+        cap = self.dimmed[name]
+        kind = rng.choice(['get-too-small', 'get-too-small', 'get-off-screen', 'assign', 'assign-header', 'copy', 'api',
+                           'erase-dim', 'none'])
+        self.ctx.count('array:' + kind)
+        if kind == 'get-too-small':
+            # a larger rectangle, on the screen, whose record does not fit the array
+            for _ in range(20):
+                w2, h2 = w + rng.randint(0, 24), h + rng.randint(0, 20)
+                w2, h2 = min(w2, self.W // self.wf), min(h2, self.H)
+                if record_size(self.kind, self.bpp, w2 * self.wf, h2) > cap:
+                    break
+            else:
+                return
+            x0, y0 = self.place(self.W - w2 * self.wf), self.place(self.H - h2)
+            refused, prob = self.ex_may_fail('GET (%d,%d)-(%d,%d),%s' % (x0, y0, x0 + w2 - 1, y0 + h2 - 1, name))
+            self.ctx.count('array:get-too-small:' + ('refused' if refused else 'accepted'))
+        elif kind == 'get-off-screen':
+            x0, y0 = rng.choice([(self.W - 1, 0), (-2, 3), (5, self.H - 1), (self.W - w * self.wf + 1, 0), (3, -1)])
+            refused, prob = self.ex_may_fail('GET (%d,%d)-(%d,%d),%s' % (x0, y0, x0 + w - 1, y0 + h - 1, name))
+            self.ctx.count('array:get-off-screen:' + ('refused' if refused else 'accepted'))
+        elif kind == 'assign':
+            # overwrite data words
+            n = cap // 2
+            for _ in range(rng.randint(1, 3)):
+                if n > 2:
+                    refused, prob = self.ex_may_fail('%s(%d)=%d' % (name, rng.randrange(2, n),
+                                                                    rng.choice([0, -1, 0x5555, -21846, rng.randint(-32768, 32767)])))
+        elif kind == 'assign-header':
+            # a smaller picture out of the same bytes
+            data = self.arr_bytes(name)
+            a, hh = struct.unpack('<HH', data[:4])
+            if rng.random() < 0.5 and hh > 1:
+                refused, prob = self.ex_may_fail('%s(1)=%d' % (name, rng.randint(1, hh - 1)))
+            elif a > 1:
+                unit = self.bpp if self.kind == 'packed' else 1
+                k = rng.randint(1, max(1, a // unit - 1))
+                refused, prob = self.ex_may_fail('%s(0)=%d' % (name, k * unit))
+        elif kind == 'copy':
+            if other in self.dimmed:
+                n = min(cap, self.dimmed[other]) // 2
+                refused, prob = self.ex_may_fail('FOR I%%=0 TO %d: %s(I%%)=%s(I%%): NEXT' % (n - 1, name, other))
+        elif kind == 'api':
+            w2, h2 = self.small_size()
+            for _ in range(20):
+                if record_size(self.kind, self.bpp, w2 * self.wf, h2) <= cap:
+                    break
+                w2, h2 = max(1, w2 - 1), max(1, h2 - 1)
+            else:
+                return
+            a = w2 * self.bpp if self.kind == 'packed' else w2
+            data = struct.pack('<HH', a, h2) + bytes(rng.randrange(256) for _ in range(cap - 4))
+            self.session.set_variable(name + '()', list(struct.unpack('<%dh' % (cap // 2), data)))
+            self.history.append('%s() = %s' % (name, data.hex()))
+        elif kind == 'erase-dim':
+            self.ah_dim(name, cap + rng.choice([0, 0, 2, 6]))
+
+    def ah_put(self, name, verb, home):
+        """PUT must paint exactly the picture the array's current bytes encode."""
+        rng = self.rng
+        data = self.arr_bytes(name)
+        pic = decode(self.kind, self.bpp, data)
+        if pic is None:
+            self.ctx.count('array:put-skipped-short-array')
+            return
+        self.ctx.case((self.adapter, self.mode, self.seed, len(self.history)))
+        if not pic:
+            # nothing to paint
+            st = 'PUT (%d,%d),%s%s' % (rng.randint(1, self.W - 1), rng.randint(1, self.H - 1), name, ',' + verb if verb else '')
+            refused, prob = self.ex_may_fail(st)
+            self.ctx.count('array:put-empty')
+            if not refused:
+                self.expect_page('put-stale-picture', self.cur, '%s of an array holding a zero-size record' % st, stmt=st,
+                                 array=data.hex())
+            elif prob:
+                self.fail('statement-rejected:PUT', '%s -> %s' % (st, prob), stmt=st)
+            return
+        w, h = len(pic[0]), len(pic)
+        if w > self.W or h > self.H:
+            return
+        if home is not None and rng.random() < 0.5 and home[0] + w <= self.W and home[1] + h <= self.H:
+            px, py = home
+        else:
+            px, py = self.place(self.W - w), self.place(self.H - h)
+        st = 'PUT (%d,%d),%s%s' % (px, py, name, ',' + verb if verb else '')
+        expected = self.put_expected(pic, px, py, verb or 'XOR')
+        err = self.ex(st)
+        if err:
+            return self.problem(st, err)
+        self.ctx.count('array:put:' + (verb or 'default'))
+        ok = self.expect_page('put-not-current-array', expected, '%s does not paint the %dx%d picture the array holds now'
+                              % (st, w, h), stmt=st, array=data.hex())
+        if ok and verb == 'PSET':
+            self.add_case('unpack %s %d %s' % (self.kind, self.bpp, data.hex()),
+                          'ok %d %d %s' % (w, h, hexrows(region(self.cur, px, py, w, h))))
+
+    def array_history(self):
+        """GET / PUT on two small arrays with refused GETs, assignments, copies, API writes and ERASE+DIM between."""
+        rng = self.rng
+        names = ['S%', 'T%']
+        rng.shuffle(names)
+        verbs = OPS + ['']
+        rng.shuffle(verbs)
+        # the other array holds a picture of its own
+        w2, h2 = self.small_size()
+        w2 = min(w2, self.W // self.wf)
+        if self.ah_dim(names[1], record_size(self.kind, self.bpp, w2 * self.wf, h2)):
+            self.ah_get_ok(names[1], w2, h2)
+        for rnd in range(3):
+            name, other = names[0], names[1]
+            w, h = self.small_size()
+            w = min(w, self.W // self.wf)
+            if not self.ah_dim(name, record_size(self.kind, self.bpp, w * self.wf, h) + rng.choice([0, 0, 1, 4])):
+                return
+            home = self.ah_get_ok(name, w, h)
+            if home is None:
+                return
+            for k in range(2):
+                if name not in self.dimmed:
+                    return
+                self.ah_disturb(name, other, w, h)
+                self.ah_put(name, 'PSET' if (rnd + k) % 2 == 0 else verbs[(2 * rnd + k) % len(verbs)], home)
+            if rng.random() < 0.5:
+                names.reverse()
+
     def add_case(self, line, out):
         cases, outs, lines = self.collect
         cases.append({'adapter': self.adapter, 'mode': self.mode, 'seed': self.seed, 'step': len(self.history),
@@ -717,6 +940,9 @@ class Episode(object):
         if self.dead:
             return
         self.background()
+        nfail0 = len(self.ctx.failures)
+        if self.hists:
+            self.array_history()
         table = [(self.step_pset, 14), (self.step_point, 4), (self.step_line, 28), (lambda: self.step_box(False), 10),
                  (lambda: self.step_box(True), 8), (self.step_get_put_same, 10), (self.step_put_op, 12),
                  (self.step_xor_twice, 6), (self.step_restore, 4), (self.step_junk_put, 4)]
@@ -726,14 +952,18 @@ class Episode(object):
             rng.choice(fns)()
             if len(self.ctx.failures) > nfail + 8:
                 break       # enough evidence from this episode
+        for _ in range(self.hists - 1):
+            if len(self.ctx.failures) > nfail0 + 16:
+                break
+            self.array_history()
         # the fast path of snap() shows what the public API shows
         pub = self.snap(public=True)
         if first_diff(pub, self.cur) is not None or len(pub) != len(self.cur):
             self.fail('get-pixels-differs', 'Session.get_pixels() differs from the rows of the visible page')
 
 
-def run_episode(ctx, adapter, mode, seed, steps, collect):
-    ep = Episode(ctx, adapter, mode, seed, steps, collect)
+def run_episode(ctx, adapter, mode, seed, steps, collect, hists=1):
+    ep = Episode(ctx, adapter, mode, seed, steps, collect, hists)
     try:
         ep.run()
     finally:
@@ -744,12 +974,12 @@ def run_episode(ctx, adapter, mode, seed, steps, collect):
 def run(ctx):
     quick = ctx.quick
     configs = QUICK if quick else ALL
-    episodes, steps = (2, 45) if quick else (6, 120)
+    episodes, steps, hists = (2, 45, 1) if quick else (6, 120, 4)
     for (adapter, mode) in configs:
         collect = ([], [], [])
         for e in range(episodes):
             seed = ctx.rng.getrandbits(40)
-            ep = run_episode(ctx, adapter, mode, seed, steps, collect)
+            ep = run_episode(ctx, adapter, mode, seed, steps, collect, hists)
             if e == 0:
                 ctx.sample({'config': '%s SCREEN %d' % (adapter, mode), 'history': ep.history[-8:]})
         ctx.count('config:%s/%d' % (adapter, mode))
@@ -765,7 +995,7 @@ def replay(ctx, payload):
     key = payload.get('key')
     if 'adapter' in case and 'seed' in case:
         collect = ([], [], [])
-        run_episode(sub, case['adapter'], case['mode'], case['seed'], case.get('steps', 45), collect)
+        run_episode(sub, case['adapter'], case['mode'], case['seed'], case.get('steps', 45), collect, case.get('hists', 1))
     else:
         sub.rng = random.Random(payload.get('seed', 0))
         run(sub)
